@@ -24,7 +24,7 @@ def add32 (a b : Nat) : Nat := (a + b) % w32
 def rotr (x n : Nat) : Nat := ((x >>> n) ||| (x <<< (32 - n))) % w32
 def not32 (x : Nat) : Nat := w32 - 1 - x
 
-def shaK : Array Nat := #[
+def shaK : List Nat := [
   0x428a2f98, 0x71374491, 0xb5c0fbcf, 0xe9b5dba5, 0x3956c25b, 0x59f111f1, 0x923f82a4, 0xab1c5ed5,
   0xd807aa98, 0x12835b01, 0x243185be, 0x550c7dc3, 0x72be5d74, 0x80deb1fe, 0x9bdc06a7, 0xc19bf174,
   0xe49b69c1, 0xefbe4786, 0x0fc19dc6, 0x240ca1cc, 0x2de92c6f, 0x4a7484aa, 0x5cb0a9dc, 0x76f988da,
@@ -54,34 +54,51 @@ def chunks64 : Nat → Bytes → List Bytes
   | 0, _ => []
   | n + 1, bs => if bs.isEmpty then [] else bs.take 64 :: chunks64 n (bs.drop 64)
 
-def schedule (blk : List Nat) : Array Nat :=
-  (List.range 48).foldl (fun (w : Array Nat) i =>
-    let t := i + 16
-    let w15 := w.getD (t - 15) 0
-    let w2 := w.getD (t - 2) 0
+/-- Evaluate a number before continuing. Semantically `k n`; it only makes evaluation order strict
+(the kernel reduces `n` to a literal first), which keeps `decide`-style evaluation of SHA-256 in
+proofs cheap. -/
+@[inline] def force {α : Type} (n : Nat) (k : Nat → α) : α :=
+  match n with
+  | 0 => k 0
+  | m + 1 => k (m + 1)
+
+/-- Message schedule, newest word first: from `[w(t-1), w(t-2), …]` compute `w(t)`. -/
+def schedStep (ws : List Nat) : List Nat :=
+  match ws with
+  | _ :: w2 :: _ :: _ :: _ :: _ :: w7 :: _ :: _ :: _ :: _ :: _ :: _ :: _ :: w15 :: w16 :: _ =>
     let s0 := rotr w15 7 ^^^ rotr w15 18 ^^^ (w15 >>> 3)
     let s1 := rotr w2 17 ^^^ rotr w2 19 ^^^ (w2 >>> 10)
-    w.push (add32 (add32 (w.getD (t - 16) 0) s0) (add32 (w.getD (t - 7) 0) s1))) blk.toArray
+    force (add32 (add32 w16 s0) (add32 w7 s1)) fun v => v :: ws
+  | _ => ws
+
+def iter {α : Type} (f : α → α) : Nat → α → α
+  | 0, x => x
+  | n + 1, x => iter f n (f x)
+
+/-- the 64 schedule words `w(0) … w(63)` of one block -/
+def schedule (blk : List Nat) : List Nat := (iter schedStep 48 blk.reverse).reverse
 
 structure ShaSt where
   (a b c d e f g h : Nat)
 
-def shaRound (w : Array Nat) (s : ShaSt) (i : Nat) : ShaSt :=
+def shaRound (s : ShaSt) (kw : Nat × Nat) : ShaSt :=
   let S1 := rotr s.e 6 ^^^ rotr s.e 11 ^^^ rotr s.e 25
   let ch := (s.e &&& s.f) ^^^ (not32 s.e &&& s.g)
-  let t1 := add32 (add32 (add32 s.h S1) (add32 ch (shaK.getD i 0))) (w.getD i 0)
+  force (add32 (add32 (add32 s.h S1) (add32 ch kw.1)) kw.2) fun t1 =>
   let S0 := rotr s.a 2 ^^^ rotr s.a 13 ^^^ rotr s.a 22
   let maj := (s.a &&& s.b) ^^^ (s.a &&& s.c) ^^^ (s.b &&& s.c)
-  let t2 := add32 S0 maj
-  { a := add32 t1 t2, b := s.a, c := s.b, d := s.c, e := add32 s.d t1, f := s.e, g := s.f, h := s.g }
+  force (add32 t1 (add32 S0 maj)) fun a =>
+  force (add32 s.d t1) fun e =>
+  { a := a, b := s.a, c := s.b, d := s.c, e := e, f := s.e, g := s.f, h := s.g }
 
 def compress (hs : List Nat) (blk : Bytes) : List Nat :=
-  let w := schedule (wordsOf blk)
-  let g := fun i => hs.getD i 0
-  let s0 : ShaSt := ⟨g 0, g 1, g 2, g 3, g 4, g 5, g 6, g 7⟩
-  let s := (List.range 64).foldl (shaRound w) s0
-  [add32 (g 0) s.a, add32 (g 1) s.b, add32 (g 2) s.c, add32 (g 3) s.d,
-   add32 (g 4) s.e, add32 (g 5) s.f, add32 (g 6) s.g, add32 (g 7) s.h]
+  match hs with
+  | [h0, h1, h2, h3, h4, h5, h6, h7] =>
+    let s := (shaK.zip (schedule (wordsOf blk))).foldl shaRound ⟨h0, h1, h2, h3, h4, h5, h6, h7⟩
+    force (add32 h0 s.a) fun a => force (add32 h1 s.b) fun b => force (add32 h2 s.c) fun c =>
+    force (add32 h3 s.d) fun d => force (add32 h4 s.e) fun e => force (add32 h5 s.f) fun f =>
+    force (add32 h6 s.g) fun g => force (add32 h7 s.h) fun h => [a, b, c, d, e, f, g, h]
+  | _ => hs
 
 def sha256 (msg : Bytes) : Bytes :=
   let p := shaPad msg
@@ -121,7 +138,7 @@ def isAlnum (c : UInt8) : Bool := (65 ≤ c && c ≤ 90) || (97 ≤ c && c ≤ 1
 def isTokChar (c : UInt8) : Bool := isAlnum c || c == 95 || c == 45
 /-- `[0-9]` -/
 def isDigit (c : UInt8) : Bool := 48 ≤ c && c ≤ 57
-/-- `[A-Za-z0-9._:/-]` -/
+/-- origin charset: alnum, dot, underscore, colon, slash, hyphen -/
 def isOriginChar (c : UInt8) : Bool := isAlnum c || c == 46 || c == 95 || c == 58 || c == 47 || c == 45
 
 /-- `\A[A-Za-z0-9_-]{1,64}\z` -/
@@ -130,7 +147,7 @@ def kidOK (s : Bytes) : Bool := 1 ≤ s.length && s.length ≤ 64 && s.all isTok
 def tsOK (s : Bytes) : Bool := 1 ≤ s.length && s.length ≤ 20 && s.all isDigit
 /-- `\A[A-Za-z0-9_-]{22}\z` -/
 def nonceOK (s : Bytes) : Bool := s.length == 22 && s.all isTokChar
-/-- `\A[A-Za-z0-9._:/-]{1,255}\z` -/
+/-- 1 to 255 origin-charset bytes (regex `proofOriginRe`) -/
 def originOK (s : Bytes) : Bool := 1 ≤ s.length && s.length ≤ 255 && s.all isOriginChar
 /-- `\A[A-Za-z0-9_-]{43}\z` -/
 def macOK (s : Bytes) : Bool := s.length == 43 && s.all isTokChar
@@ -138,7 +155,8 @@ def macOK (s : Bytes) : Bool := s.length == 43 && s.all isTokChar
 def dot : UInt8 := 46
 def comma : UInt8 := 44
 def versionV1 : Bytes := [118, 49]            -- "v1"
-def domainPrefix : Bytes := bytesOfString "vgi.proxy.proof.v1"
+/-- "vgi.proxy.proof.v1" -/
+def domainPrefix : Bytes := [118, 103, 105, 46, 112, 114, 111, 120, 121, 46, 112, 114, 111, 111, 102, 46, 118, 49]
 def maxHeaderLen : Nat := 512
 def secretLen : Nat := 32
 def maxInt64 : Nat := 9223372036854775807
@@ -159,7 +177,7 @@ def decVal (s : Bytes) : Nat := s.foldl (fun n c => 10 * n + (c.toNat - 48)) 0
 
 /-- `proofCanonicalString`: domain prefix and the four fields, NUL-separated. -/
 def canonical (kid ts nonce origin : Bytes) : Bytes :=
-  domainPrefix ++ 0 :: kid ++ 0 :: ts ++ 0 :: nonce ++ 0 :: origin
+  domainPrefix ++ (0 :: (kid ++ (0 :: (ts ++ (0 :: (nonce ++ (0 :: origin)))))))
 
 def lookup (kid : Bytes) : List (Bytes × Bytes) → Option Bytes
   | [] => none
@@ -171,7 +189,7 @@ structure Cfg where
   origin : Bytes
   secrets : List (Bytes × Bytes)      -- kid ↦ secret (a Go map: kids distinct)
   skew : Nat                          -- SkewSeconds (validated positive by ProofAuthenticate)
-  deriving Repr
+  deriving Repr, DecidableEq
 
 inductive Reason
   | noProof | malformed | unknownKid | expired | notYetValid | badMac | replayed
@@ -218,7 +236,7 @@ structure Cache where
   ttl : Nat            -- nanoseconds
   cap : Nat            -- capacity (≥ 1 wherever the code constructs one)
   order : List Entry   -- oldest first (container/list order; the map mirrors it)
-  deriving Repr
+  deriving Repr, DecidableEq
 
 /-- `for front exists && !front.expiresAt.After(now) { remove front }` -/
 def sweep (now : Nat) : List Entry → List Entry
@@ -270,16 +288,21 @@ structure Gate where
   cfg : Cfg
   hasInner : Bool
   cache : Option Cache
-  deriving Repr
+  deriving Repr, DecidableEq
 
 /-- TTL given to the cache: `time.Duration(2*SkewSeconds+1) * time.Second`. -/
 def ttlNs (skew : Nat) : Nat := (2 * skew + 1) * nsPerSec
 
+/-- "allow" -/
+def modeAllowStr : Bytes := [97, 108, 108, 111, 119]
+/-- "require" -/
+def modeRequireStr : Bytes := [114, 101, 113, 117, 105, 114, 101]
+
 /-- Config validation + construction of `ProofAuthenticate`. `modeStr` is the raw mode string. -/
-def mkGate (modeStr : String) (origin : Bytes) (secrets : List (Bytes × Bytes)) (skew capacity : Int)
+def mkGate (modeStr : Bytes) (origin : Bytes) (secrets : List (Bytes × Bytes)) (skew capacity : Int)
     (disableCache hasInner : Bool) : Option Gate :=
   let mode? : Option Mode :=
-    if modeStr = "allow" then some .allow else if modeStr = "require" then some .require else none
+    if modeStr = modeAllowStr then some .allow else if modeStr = modeRequireStr then some .require else none
   match mode? with
   | none => none
   | some mode =>
